@@ -413,3 +413,26 @@ func pathGuards(b *ssa.BasicBlock) (common []Guard, alts [][]Guard) {
 	}
 	return common, alts
 }
+
+// pathAlts: every alternative under which b is reached, each as its full list of rendered literals.
+func (c *Ctx) pathAlts(b *ssa.BasicBlock) [][]string {
+	pi := pathConds(b.Parent())
+	var out [][]string
+	for _, a := range pi.in[b] {
+		var lits []string
+		for _, l := range a {
+			k := int(l >> 1)
+			if pi.isFlag[k] {
+				continue
+			}
+			pol := l&1 == 1
+			if pi.flip[k] {
+				pol = !pol
+			}
+			lits = append(lits, canonGuard(pol, c.Expr(pi.conds[k])))
+		}
+		sort.Strings(lits)
+		out = append(out, lits)
+	}
+	return out
+}
